@@ -169,6 +169,22 @@ theorem full_statement_fails :
   rw [hs] at h2
   simpa using h2
 
+/-- the same race seen from the successor: worker 1 has just bound when worker 0's late `unlink` removes its socket; worker 1's own
+`os.lstat(path)` right after `bind` fails, the process dies, `_spawn_worker` (hence `launch`) raises — no path is returned, the
+endpoint is left without a worker -/
+theorem exit_unlink_kills_starting_successor :
+    verdict ⟨true, true, true⟩ 8
+      ([.begin 1 .launch, .lockOpen 1, .lockFlock 1 true, .lockVerify 1 true, .probe 1 false, .unlinkStale 1 true, .writeMeta 1] ++
+       startUp 1 0 ++ [.release 1, .ret 1, .tick 8, .wExit 0, .wStat 0,
+       .begin 2 .launch, .lockOpen 2, .lockFlock 2 true, .lockVerify 2 true, .probe 2 false, .unlinkStale 2 true, .writeMeta 2,
+       .spawn 2 1, .wCheck 1 true, .wClear 1, .wBind 1, .wUnlink 0, .wLost 1, .spawnFail 2, .release 2, .raised 2]) =
+      some (true, false, false, 0) := by decide +kernel
+/-- without a clobbering the fresh socket cannot vanish: `wLost` of a bound worker is not a step -/
+theorem bound_worker_not_lost_without_clobber :
+    verdict ⟨true, true, true⟩ 8
+      ([.begin 1 .launch, .lockOpen 1, .lockFlock 1 true, .lockVerify 1 true, .probe 1 false, .unlinkStale 1 true, .writeMeta 1,
+        .spawn 1 0, .wCheck 0 true, .wClear 0, .wBind 0, .wLost 0]) = none := by decide +kernel
+
 /-- seeded change C33-5 — `serve_unix` announces (`on_bound`) BEFORE it listens (`listenFirst = false`): worker 0 is bound and
 has written its `UNIX:<path>` line; launcher 1's `_spawn_worker` returns on it and `launch` returns a path whose socket does
 not listen yet (connect → ECONNREFUSED); launcher 2 gets the lock, its probe is refused, it unlinks the LIVE worker's socket
